@@ -1077,3 +1077,82 @@ Proof.
   - unfold enc_refrac, nv_cfg. simpl. lra.
   - intros t. eapply hpe_offline_zero_silent; eauto.
 Qed.
+
+(* ------------------------------------------------------------------ independent description of the spike times
+   offline: the element's k-th candidate spike time is the floor of the sum of its first k+1 intervals
+   e_i * scale + refrac/dt; it is emitted iff it falls before `steps`.  (This is the statement of the
+   encoder; the code reaches it through cumsum, clamp_max_, .long(), scatter_ into steps+1 rows, [:-1].) *)
+Definition psum (l : list R) (k : nat) : R := fold_right Rplus 0 (firstn (S k) l).
+
+Lemma csR_from_nth acc l k : (k < length l)%nat -> nth k (csR_from acc l) 0 = acc + psum l k.
+Proof.
+  revert acc k; induction l as [|x t IH]; intros acc k Hk; simpl in Hk; [lia|].
+  destruct k as [|k]; simpl.
+  - unfold psum. simpl. lra.
+  - rewrite IH by lia. unfold psum. simpl. lra.
+Qed.
+
+Lemma csR_nth l k : (k < length l)%nat -> nth k (csR l) 0 = psum l k.
+Proof.
+  destruct l as [|x t]; intros Hk; simpl in Hk; [lia|]. destruct k as [|k]; simpl.
+  - unfold psum. simpl. lra.
+  - rewrite csR_from_nth by lia. unfold psum. simpl. lra.
+Qed.
+
+Theorem exp_offline_elem_spikes steps dt refrac comp inp draws tr v :
+  0 < dt -> 0 <= refrac_ms refrac dt -> 0 <= v -> Forall (fun e => 0 <= e) draws ->
+  exp_offline_elem RN steps dt refrac comp inp draws = Some tr ->
+  scale_of RN inp dt (refrac_ms refrac dt / dt) comp = Some v ->
+  let ivs := map (fun e => e * v + refrac_ms refrac dt / dt) (used steps (refrac_ms refrac dt / dt) draws) in
+  forall t, nth t tr false = true <->
+    ((t < steps)%nat /\ exists k, (k < length ivs)%nat /\ Zfloor (psum ivs k) = Z.of_nat t).
+Proof.
+  intros Hdt Hrms Hv Hd H Es ivs t.
+  destruct (exp_offline_elem_spec _ _ _ _ _ _ _ H) as [_ [Hn _]]. rewrite Hn. clear Hn.
+  rewrite refrac_steps_eq, Es, exp_indices_some. fold ivs.
+  assert (Hr : 0 <= refrac_ms refrac dt / dt) by (apply (refrac_steps_nonneg refrac dt); auto).
+  destruct (csR_gapped _ ivs Hr) as [_ Hge].
+  { apply intervals_ge; auto. apply firstn_Forall; auto. }
+  rewrite Forall_forall in Hge.
+  split; intros [Ht Hx]; split; auto.
+  - apply in_map_iff in Hx as [c [Hc Hin]]. pose proof (Hge _ Hin) as Hc0.
+    destruct (clamp_index_inv steps c t ltac:(lra) Ht Hc) as [_ Hf].
+    apply In_nth with (d := 0) in Hin as [k [Hk Hnk]]. rewrite csR_length in Hk.
+    exists k. split; auto. rewrite <- Hf. f_equal. rewrite <- Hnk. symmetry. apply csR_nth; auto.
+  - destruct Hx as [k [Hk Hf]]. rewrite <- (csR_nth ivs k Hk) in Hf.
+    assert (Hin : In (nth k (csR ivs) 0) (csR ivs)) by (apply nth_In; rewrite csR_length; auto).
+    pose proof (Hge _ Hin) as Hc0. set (c := nth k (csR ivs) 0) in *.
+    assert (Hlt : c < IZR (Z.of_nat steps)).
+    { pose proof (Zfloor_ub c) as Hub. rewrite Hf in Hub.
+      assert (IZR (Z.of_nat t + 1) <= IZR (Z.of_nat steps)) by (apply IZR_le; lia). lra. }
+    destruct (clamp_index_lt steps c ltac:(lra) Hlt) as [E _].
+    apply in_map_iff. exists c. split; auto. rewrite E. auto.
+Qed.
+
+(* online: from a finite countdown value x the element first fires at step max(0, floor(x) - 1); hence after
+   a spike with fresh interval I the next spike follows exactly max(1, floor I) steps later *)
+Lemma Zfloor_minus_1 x : Zfloor (x - 1) = (Zfloor x - 1)%Z.
+Proof.
+  apply Zfloor_imp. rewrite minus_IZR. replace (Zfloor x - 1 + 1)%Z with (Zfloor x) by lia.
+  pose proof (Zfloor_lb x). pose proof (Zfloor_ub x). simpl. rewrite plus_IZR in *. simpl in *. lra.
+Qed.
+
+Theorem exp_trace_wait r s x bs : exp_trace r s (Some x) bs ->
+  forall t, nth t bs false = true -> (forall t', (t' < t)%nat -> nth t' bs false = false) ->
+  Z.of_nat t = Z.max 0 (Zfloor x - 1).
+Proof.
+  intros H. remember (Some x) as i eqn:Ei. revert x Ei.
+  induction H as [i|i bs Hf Htr IH|i e bs Hf He Htr IH]; intros x Ei t Ht Hfirst; subst.
+  - destruct t; discriminate.
+  - destruct t as [|t]; [discriminate|]. simpl in Ht.
+    assert (Hx : 2 <= x).
+    { unfold exp_fire, ext_lt1 in Hf. simpl in Hf. revert Hf. rn_simpl.
+      destruct (Rltb'_spec (x - 1) 1); [discriminate|]. intros _. lra. }
+    assert (E : Z.of_nat t = Z.max 0 (Zfloor (x - 1) - 1)).
+    { apply (IH (x - 1)); auto. intros t' Ht'. apply (Hfirst (S t')). lia. }
+    rewrite Zfloor_minus_1 in E.
+    assert (2 <= Zfloor x)%Z by (apply Zfloor_lub; simpl; auto). lia.
+  - destruct t as [|t]; [|specialize (Hfirst 0%nat ltac:(lia)); discriminate].
+    apply exp_fire_inv in Hf as [y [Ey Hy]]. inversion Ey; subst y.
+    assert (Zfloor x < 2)%Z by (apply lt_IZR; pose proof (Zfloor_lb x); simpl; lra). lia.
+Qed.
